@@ -68,8 +68,10 @@ def run_file(ctx, exe, path, timeout=1500, args=()):
 def write_cases(ctx, tag, text):
     d = os.path.join(fw.BUILD, "run")
     os.makedirs(d, exist_ok=True)
-    p = os.path.join(d, "%s-ovmb-%s.cases" % (ctx.id, tag))
+    # (pid in the name: several checks of the same property may run at once)
+    p = os.path.join(d, "%s-ovmb-%s-%d.cases" % (ctx.id, tag, os.getpid()))
     open(p, "w").write(text)
+    ctx.scratch_files.append(p)
     return p
 
 class Cases:
@@ -196,11 +198,16 @@ def compare_read(ctx, tag, cases, impl, model, oracles=()):
     return ib, mb
 
 def init_ctx(ctx):
+    ctx.scratch_files = []
     ctx.stats = collections.Counter()
     ctx.known_hits = collections.Counter()
     ctx.distinct = set()
 
 def finish_ctx(ctx, rule):
+    if not (ctx.violations or ctx.broken):          # keep the case files of a failing run for inspection
+        for p in ctx.scratch_files:
+            try: os.remove(p)
+            except OSError: pass
     for k, n in ctx.known_hits.items():
         ctx.known.append("%s (%d cases)" % (k, n))
     ctx.cov["result_distribution"] = dict(ctx.stats)
